@@ -94,13 +94,19 @@ func gen(r *hx.Rand, n int, tier string, emit func(string), st *hx.Stats) {
 				rq.User = "user:" + hx.Pick(c, []string{"x", "y", "z"})
 			}
 			var ctxT []fga.Tuple
-			if c.Chance(1, 4) {
+			if c.Chance(1, 3) {
 				seen := map[string]bool{}
 				for _, t := range tuples {
 					seen[t.String()] = true
 				}
 				for j := 0; j < 1+c.Intn(3); j++ {
 					t, ok := fga.GenTuple(c, m)
+					if ok && c.Chance(1, 2) {
+						// near the request: a contextual tuple on the requested object
+						if t2, ok2 := ctxTupleOn(c, m, rq.Obj); ok2 {
+							t = t2
+						}
+					}
 					if !ok || seen[t.String()] || validation.ValidateTupleForWrite(ts, t.Key()) != nil {
 						continue
 					}
@@ -135,6 +141,47 @@ func gen(r *hx.Rand, n int, tier string, emit func(string), st *hx.Stats) {
 			}
 		}
 	}
+}
+
+// ctxTupleOn draws a tuple on the given object from the type restrictions of one of its relations.
+func ctxTupleOn(r *hx.Rand, m *fga.Model, obj string) (fga.Tuple, bool) {
+	typ := fga.TypeOf(obj)
+	for _, t := range m.Types {
+		if t.Name != typ {
+			continue
+		}
+		var cands []*fga.RelDef
+		for _, rd := range t.Rels {
+			if len(rd.Restrs) > 0 {
+				cands = append(cands, rd)
+			}
+		}
+		if len(cands) == 0 {
+			return fga.Tuple{}, false
+		}
+		rd := hx.Pick(r, cands)
+		x := hx.Pick(r, rd.Restrs)
+		tu := fga.Tuple{Obj: obj, Rel: rd.Name, Cond: x.Cond}
+		switch {
+		case x.Wild:
+			tu.User = x.Typ + ":*"
+		case x.Rel != "":
+			tu.User = x.Typ + ":" + hx.Pick(r, []string{"a", "b", "c"}) + "#" + x.Rel
+		case x.Typ == "user":
+			tu.User = "user:" + hx.Pick(r, []string{"x", "y", "z"})
+		default:
+			tu.User = x.Typ + ":" + hx.Pick(r, []string{"a", "b", "c"})
+		}
+		if tu.Cond != "" && r.Chance(1, 2) {
+			for _, c := range m.Conds {
+				if c.Name == tu.Cond {
+					tu.Ctx = []fga.KV{{K: c.Param, V: hx.Pick(r, []int{0, 5, 10, 20})}}
+				}
+			}
+		}
+		return tu, true
+	}
+	return fga.Tuple{}, false
 }
 
 // ---- running the engines ---------------------------------------------------------------------------
